@@ -859,10 +859,32 @@ func engineOwSimSplit(rc *RunCtx) *Outcome {
 	build("/sim/full.h5", 0, c.T)
 	build("/sim/first.h5", 0, cut)
 	build("/sim/second.h5", cut, c.T)
+	// the first part may be run without the time series of some models (-no-outputs-for /
+	// -no-inputs-for): what the second part starts from is the final states, which are always due
+	firstFlags := owsim.VerifFlagSet{FinalStates: "/sim/states-after-first.h5"}
+	skipFirst := map[string]bool{}
+	if w.Bool(40) {
+		var noOut, noIn []string
+		for _, m := range c.models {
+			if w.Bool(50) {
+				noOut = append(noOut, m.name)
+				skipFirst[m.name] = true
+			}
+			if w.Bool(30) {
+				noIn = append(noIn, m.name)
+			}
+		}
+		firstFlags.NoOutputsFor = strings.Join(noOut, ",")
+		firstFlags.NoInputsFor = strings.Join(noIn, ",")
+		o.Sample.(map[string]interface{})["first_part_flags"] = fmt.Sprintf("-no-outputs-for %q -no-inputs-for %q", firstFlags.NoOutputsFor, firstFlags.NoInputsFor)
+		if len(noOut) > 0 {
+			o.probe("owsim_hot_start_first_part_without_time_series_of_some_models")
+		}
+	}
 	s := simrt.Run(rc.T, simrt.Config{DeepPct: 10, MaxSimTime: 1000 * time.Hour}, rc.S, func() {
 		owsim.VerifSetFlags(owsim.VerifFlagSet{})
 		owsim.VerifRunSimulation([]string{"/sim/full.h5", "/sim/out-full.h5"})
-		owsim.VerifSetFlags(owsim.VerifFlagSet{FinalStates: "/sim/states-after-first.h5"})
+		owsim.VerifSetFlags(firstFlags)
 		owsim.VerifRunSimulation([]string{"/sim/first.h5", "/sim/out-first.h5"})
 		owsim.VerifSetFlags(owsim.VerifFlagSet{InitialStates: "/sim/states-after-first.h5"})
 		owsim.VerifRunSimulation([]string{"/sim/second.h5", "/sim/out-second.h5"})
@@ -901,7 +923,7 @@ func engineOwSimSplit(rc *RunCtx) *Outcome {
 		tol := tolFor(m.name)
 		base := "/MODELS/" + m.name
 		full, first, second := get("/sim/out-full.h5", base+"/outputs"), get("/sim/out-first.h5", base+"/outputs"), get("/sim/out-second.h5", base+"/outputs")
-		if full == nil || first == nil || second == nil {
+		if full == nil || (first == nil && !skipFirst[m.name]) || second == nil {
 			o.fail("split-output-differs", "owsim-hotstart/"+m.name, "%s: an outputs dataset is missing in one of the three ow-sim runs", m.name)
 			return o
 		}
@@ -912,6 +934,9 @@ func engineOwSimSplit(rc *RunCtx) *Outcome {
 					e := full.Floats[(r*nOut+k)*c.T+t]
 					var g float64
 					if t < cut {
+						if skipFirst[m.name] {
+							continue
+						}
 						g = first.Floats[(r*nOut+k)*cut+t]
 					} else {
 						g = second.Floats[(r*nOut+k)*(c.T-cut)+t-cut]
